@@ -304,7 +304,7 @@ def check_case(case, cfgs, timeout_ms=60000, want_witness=True):
     except EngineError as e:
         out["error"] = "engine: %s" % e
     except Exception:
-        out["error"] = "exception: " + traceback.format_exc()[-1500:]
+        out["error"] = "exception: " + traceback.format_exc()[-700:]
     finally:
         common.rm_rf(work)
     out["s"] = round(time.time() - t0, 2)
